@@ -1,6 +1,9 @@
 package vharness
 
-import "fmt"
+import (
+	"fmt"
+	"strings"
+)
 
 // ---------------------------------------------------------------- C17
 
@@ -600,4 +603,31 @@ func oC09Resumed(ix *Index) []Violation {
 	}
 	out = append(out, lostWakeups(ix, "C09")...)
 	return out
+}
+
+// completionBlocked: nothing can run any more, a client waits on a handle, and a goroutine started by
+// the library sits in a channel send: an item's outcome could not be delivered, so the item (and
+// everything behind it on that pool worker) never finishes and the waiter never returns.
+func completionBlocked(prop string) oracleFn {
+	return func(ix *Index) []Violation {
+		if !ix.R.Rep.Deadlock {
+			return nil
+		}
+		waiting := ""
+		for _, c := range ix.blockedCalls() {
+			switch c.Op {
+			case "gwait", "wait", "result", "err":
+				waiting = fmt.Sprintf("client %d in %s", c.C, c.Op)
+			}
+		}
+		if waiting == "" {
+			return nil
+		}
+		for _, b := range ix.R.Rep.Blocked {
+			if strings.Contains(b, "blocked on chan send") && !strings.Contains(b, "[client") && !strings.Contains(b, "[root]") && !strings.Contains(b, "[errs-reader]") && !strings.Contains(b, "[notifier]") {
+				return []Violation{v(prop, "completion-blocked", "%s is blocked forever while a library goroutine is stuck delivering an outcome: %s", waiting, b)}
+			}
+		}
+		return nil
+	}
 }
